@@ -26,7 +26,7 @@ func init() {
 			"distinct_nontrivial = distinct programs with >=2 Adds that passed >=3 invariant checks with >=2 marks present",
 		Assumptions: []string{"fdinfo lists every mark of the instance", "the invariant is read only at quiescent points (after a barrier), under the library's own lock"},
 		Batches:     func(t string) int { return map[string]int{"quick": 10, "thorough": 40}[t] },
-		MustObserve: []string{"invariant_checks", "invariant_checks_with_2plus_marks", "readds_of_listed_path", "cycles_back_to_start"},
+		MustObserve: []string{"invariant_checks", "invariant_checks_with_2plus_marks", "readds_of_listed_path", "cycles_back_to_start", "replace_race_iterations"},
 		Run:         runC12,
 	})
 }
@@ -42,6 +42,7 @@ func runC12(c *core.Ctx) {
 		c12Case(c, rng, dir, i)
 		done()
 	}
+	replaceRace(c, 5000000, "")
 }
 
 func c12Case(c *core.Ctx, rng *rand.Rand, dir string, idx int) {
